@@ -291,20 +291,42 @@ def sample(ctx, budget=1.0, hint=None, broken=None):
             nxt = _rand_seg(spt, r, again.end, 1.0, 'line')
             segs.append(nxt)
             closed = False
+        gapped = ''
+        if not closed and len(segs) >= 2 and r.random() < 0.3:
+            # several sub-paths: real gaps between some consecutive segments - ordinary ones, or small compared with the coordinates
+            # (a drawing far from the origin whose sub-paths lie a unit apart)
+            gapped = r.choice(['gap', 'small-relative-gap', 'small-relative-gap'])
+            off = 0j
+            if gapped == 'small-relative-gap':
+                off = complex(r.choice([2e5, -3e5, 1e6]), r.choice([1e5, 2e5]))
+            shift = 0j
+            new_segs = []
+            for i_, sg in enumerate(segs):
+                if i_ > 0 and r.random() < 0.6:
+                    shift += (complex(1.5, 0.25) if gapped == 'gap' else complex(r.choice([1.0, 0.5, -0.75]), r.choice([0.25, 0.0])))
+                new_segs.append(sg.translated(off + shift))
+            segs = new_segs
+            if all(a_.end == b_.start for a_, b_ in zip(segs, segs[1:])):
+                gapped = ''
         path = P.Path(*segs)
         desc = repr(path).replace('\n', ' ')
         if r.random() < 0.5:
             path.length()   # fill the caches before the operation
             path.point(0.3)
         n_eval += 1
-        nontriv.add(('path', len(segs), closed, dyadic))
+        nontriv.add(('path', len(segs), closed, dyadic, gapped))
         L = path.length()
         tol = 1e-8 * (L + 1)
         # reversed
         rp = path.reversed()
         if abs(rp.length() - L) > 1e-9 * L:
             fail('Path.reversed/length', 'reversed() changes the length', {'path': desc}, repr(rp.length()), repr(L))
+        bounds_ = [0.0]
+        for s_ in segs:
+            bounds_.append(bounds_[-1] + s_.length() / L)
         for T in (0.0, 0.03125, 0.3, 0.5, 0.9, 1.0):
+            if gapped and min(abs((1 - T) - b_) for b_ in bounds_[1:-1] + [2.0]) < 1e-6:
+                continue      # at a jump across a gap the parameter belongs to either side
             if abs(rp.point(T) - path.point(1 - T)) > 1e-6 * (L + 1):
                 fail('Path.reversed/points', 'reversed().point(T) != point(1-T)', {'path': desc, 'T': T, 'queried_before': True},
                      repr(rp.point(T)), repr(path.point(1 - T)), 'svgpathtools.%s.reversed().point(%r)' % (desc, T))
@@ -314,6 +336,8 @@ def sample(ctx, budget=1.0, hint=None, broken=None):
         for s in segs:
             bounds.append(bounds[-1] + s.length() / L)
         cands = [0.0, 1.0, 0.25, 0.5, 0.75] + bounds[1:-1] + [r.random(), r.random()]
+        if gapped:
+            cands = [0.0, 1.0] + [c_ for c_ in [0.25, 0.5, 0.75, r.random(), r.random(), r.random()] if min(abs(c_ - b_) for b_ in bounds) > 1e-6]
         T0, T1 = r.choice(cands), r.choice(cands)
         T0, T1 = min(max(T0, 0.0), 1.0), min(max(T1, 0.0), 1.0)
         if T0 == T1 or (T0 == 1 and T1 == 0):
@@ -335,7 +359,22 @@ def sample(ctx, budget=1.0, hint=None, broken=None):
         if abs(cp.point(0) - path.point(T0)) > tol or abs(cp.point(1) - path.point(T1)) > tol:
             fail('Path.cropped/ends', 'cropped(T0,T1) does not start at point(T0) / end at point(T1)', {'path': desc, 'T0': T0, 'T1': T1},
                  repr((cp.point(0), cp.point(1))), repr((path.point(T0), path.point(T1))), rep)
-        if any(abs(x.end - y.start) > tol for x, y in zip(cp, list(cp)[1:])):
+        if not wrap:
+            # the first and the last piece are the restrictions of the segments they were cut from (the pieces in between are whole segments)
+            try:
+                k0_, t0_ = path.T2t(T0)
+                k1_, t1_ = path.T2t(T1)
+            except Exception:
+                k0_ = None
+            if k0_ is not None and 1e-6 < t0_ < 1 - 1e-6 and 1e-6 < t1_ < 1 - 1e-6 and k1_ > k0_ and len(cp) == k1_ - k0_ + 1:
+                for U in (0.0, 0.3, 0.7, 1.0):
+                    w0_ = segs[k0_].point(t0_ + U * (1 - t0_))
+                    w1_ = segs[k1_].point(U * t1_)
+                    if abs(cp[0].point(U) - w0_) > 1e-6 * (L + 1) + 1e-9 * abs(w0_) or abs(cp[-1].point(U) - w1_) > 1e-6 * (L + 1) + 1e-9 * abs(w1_):
+                        fail('Path.cropped/end pieces', 'the first / last piece of cropped(T0,T1) is not the restriction of the segment it was cut from',
+                             {'path': desc, 'T0': T0, 'T1': T1, 'u': U}, repr((cp[0].point(U), cp[-1].point(U))), repr((w0_, w1_)), rep)
+                        break
+        if not gapped and any(abs(x.end - y.start) > tol for x, y in zip(cp, list(cp)[1:])):
             fail('Path.cropped/joined', 'consecutive pieces of the crop are not joined', {'path': desc, 'T0': T0, 'T1': T1}, repr(cp), 'joined pieces', rep)
         if abs(cp.length() - want_len) > 1e-6 * (L + 1):
             sig = 'Path.cropped/length'
